@@ -101,11 +101,28 @@ func VH_C05_results() {
 	prevFailed := false
 	var prevTask task.Task
 	prevFailures := 0
+	// a concurrent producer that puts one task in front of the queue at an arbitrary
+	// moment (during a handler, during a back-off or repeat delay, ...).  The list
+	// model is updated when AddFirst has returned, or earlier when the worker is
+	// seen to have picked the new task already (linearization inside AddFirst).
+	var pending task.Task
+	committed := false
+	adderDone := true
+	withAdder := zz.Param("adder", 1) == 1 && zz.Bool("concurrent_add_first")
+	commit := func() {
+		if !committed {
+			model = append([]task.Task{pending}, model...)
+			committed = true
+		}
+	}
 	q.WithHandler(func(t task.Task) TaskResult {
 		running++
 		zz.Assert(running == 1, "one_handler_at_a_time")
+		if pending != nil && t == pending {
+			commit()
+		}
 		zz.Assert(len(model) > 0 && t == model[0], "handler_gets_the_head_task")
-		if prevFailed {
+		if prevFailed && len(model) > 0 && model[0] == prevTask {
 			zz.Assert(t == prevTask, "failed_task_is_retried_before_any_other")
 			zz.Assert(t.GetFailureCount() == prevFailures+1, "failure_count_incremented_once")
 			zz.Assert(lastDelay >= int64(DefaultInitialDelayOnFailedTask), "retry_delay_not_shorter_than_initial")
@@ -120,17 +137,25 @@ func VH_C05_results() {
 		res := TaskResult{Status: st}
 		prevFailed, prevTask, prevFailures = st == Fail, t, t.GetFailureCount()
 		// while the handler runs (without the queue lock) somebody may put a new task in front
-		if zz.Bool("head_changes_while_handling" + strconv.Itoa(calls)) {
+		if !withAdder && zz.Bool("head_changes_while_handling"+strconv.Itoa(calls)) {
 			fresh++
 			x := &task.BaseTask{Id: "x" + strconv.Itoa(fresh)}
 			q.AddFirst(x)
 			model = append([]task.Task{x}, model...)
-			prevFailed = false // the new head is handled before the retry of t
 		}
 		if st == Success || st == Keep {
-			res.HeadTasks = newTasks("head" + strconv.Itoa(calls))
-			res.AfterTasks = newTasks("after" + strconv.Itoa(calls))
-			res.TailTasks = newTasks("tail" + strconv.Itoa(calls))
+			// the three result lists are parts of one slice with spare capacity, as a
+			// handler that fills one buffer would return them
+			hd := newTasks("head" + strconv.Itoa(calls))
+			af := newTasks("after" + strconv.Itoa(calls))
+			tl := newTasks("tail" + strconv.Itoa(calls))
+			all := make([]task.Task, 0, 8)
+			all = append(all, hd...)
+			all = append(all, af...)
+			all = append(all, tl...)
+			res.HeadTasks = all[:len(hd)]
+			res.AfterTasks = all[len(hd) : len(hd)+len(af)]
+			res.TailTasks = all[len(hd)+len(af):]
 			// the list model of the documented placement (t is wherever it is now)
 			pos := 0
 			for i := range model {
@@ -139,22 +164,31 @@ func VH_C05_results() {
 				}
 			}
 			var m2 []task.Task
-			m2 = append(m2, res.HeadTasks...)
+			m2 = append(m2, hd...)
 			m2 = append(m2, model[:pos]...)
 			if st == Keep {
 				m2 = append(m2, t)
 			}
-			m2 = append(m2, res.AfterTasks...)
+			m2 = append(m2, af...)
 			m2 = append(m2, model[pos+1:]...)
-			m2 = append(m2, res.TailTasks...)
+			m2 = append(m2, tl...)
 			model = m2
 		}
 		running--
 		return res
 	})
+	if withAdder {
+		adderDone = false
+		zz.Go("adder", func() {
+			pending = &task.BaseTask{Id: "added"}
+			q.AddFirst(pending)
+			commit()
+			adderDone = true
+		})
+	}
 	q.Start()
 	zz.WaitUntil(func() bool {
-		return q.Status == "stop" || (len(q.items) == 0 && running == 0 && calls > 0 && q.Status == "")
+		return adderDone && (q.Status == "stop" || (len(q.items) == 0 && running == 0 && calls > 0 && q.Status == ""))
 	})
 	if q.Status != "stop" {
 		// the queue ran dry before the call budget was used
